@@ -18,37 +18,48 @@ def Statement : Prop :=
     Freshness.decide m now force skip inm ims suffix = .ok .notModified304 →
     validatorMatches suffix inm ims m.header = true
 
-/-! ## Finding C09-a: the clause as stated is false -/
+/-! ## Regression instances: the former finding C09-a
 
-/-- **C09-a, witness without a suffix.**  Stored `Etag: abc`, client `If-None-Match: Wabc`:
-    `strings.TrimLeft("Wabc", "W/")` is `abc`, so the client is answered 304 although `Wabc`
-    and `abc` are different entity-tags. -/
-theorem fails_witness_a :
+  `normalizeEtag` used to be `strings.TrimLeft(s, "W/")`, a CUTSET trim, so unquoted entity-tags
+  that differ by leading `W` / `/` characters compared equal and the client was answered 304 for
+  a tag that does not match.  Repaired by a `fix:` commit (`strings.TrimPrefix`); the three
+  witnesses of the finding (stream kf.C09-a) are now served in full. -/
+
+/-- stored `Etag: abc`, client `If-None-Match: Wabc`: `Wabc` and `abc` are different entity-tags;
+    the model (like the repaired code) no longer answers 304 (it used to: `TrimLeft("Wabc","W/")`
+    is `abc`) and the oracle accepts the full answer -/
+example :
     Freshness.decide { header := [(b!"Etag", [b!"abc"])], created := 1700000000, revalidated := 0 }
-        1700000001 0 false b!"Wabc" [] none = .ok .notModified304 ∧
-    validatorMatches none b!"Wabc" [] [(b!"Etag", [b!"abc"])] = false := by
+        1700000001 0 false b!"Wabc" [] none = .ok (.fresh 1) ∧
+    validatorMatches none b!"Wabc" [] [(b!"Etag", [b!"abc"])] = false ∧
+    holds none b!"Wabc" [] [(b!"Etag", [b!"abc"])] false = true := by
   decide +kernel
 
-/-- **C09-a, witness with a configured suffix.**  Stored `Etag: Wabc`, `ETAG_SUFFIX=-rr`, client
-    `If-None-Match: W/abc-rr`: the client's tag is trimmed to `abc-rr`, cut to `abc`, and the
-    STORED tag `Wabc` is trimmed to `abc` as well. -/
-theorem fails_witness_a_suffix :
+/-- stored `Etag: /abc`, client `If-None-Match: abc` -/
+example :
+    Freshness.decide { header := [(b!"Etag", [b!"/abc"])], created := 1700000000, revalidated := 0 }
+        1700000001 0 false b!"abc" [] none = .ok (.fresh 1) ∧
+    validatorMatches none b!"abc" [] [(b!"Etag", [b!"/abc"])] = false := by
+  decide +kernel
+
+/-- stored `Etag: Wabc`, `ETAG_SUFFIX=-rr`, client `If-None-Match: W/abc-rr`: the client's tag is
+    trimmed to `abc-rr` and cut to `abc`; the STORED tag `Wabc` now stays `Wabc` -/
+example :
     suffixOk (some b!"-rr") = true ∧
     Freshness.decide { header := [(b!"Etag", [b!"Wabc"])], created := 1700000000, revalidated := 0 }
-        1700000001 0 false b!"W/abc-rr" [] (some b!"-rr") = .ok .notModified304 ∧
+        1700000001 0 false b!"W/abc-rr" [] (some b!"-rr") = .ok (.fresh 1) ∧
     validatorMatches (some b!"-rr") b!"W/abc-rr" [] [(b!"Etag", [b!"Wabc"])] = false := by
   decide +kernel
 
-/-- both witnesses lie in the declared class of the finding -/
-example : inClass_C09_a b!"Wabc" b!"abc" = true ∧ inClass_C09_a b!"W/abc-rr" b!"Wabc" = true := by
-  decide
-
-theorem Statement_false : ¬ Statement := by
-  intro h
-  have hw := fails_witness_a
-  have := h _ _ _ _ _ _ _ rfl hw.1
-  rw [hw.2] at this
-  exact Bool.false_ne_true this
+/-- … while the weak form of the very same unquoted tag still matches, with and without suffix -/
+example :
+    Freshness.decide { header := [(b!"Etag", [b!"Wabc"])], created := 1700000000, revalidated := 0 }
+        1700000001 0 false b!"W/Wabc" [] none = .ok .notModified304 ∧
+    validatorMatches none b!"W/Wabc" [] [(b!"Etag", [b!"Wabc"])] = true ∧
+    Freshness.decide { header := [(b!"Etag", [b!"Wabc"])], created := 1700000000, revalidated := 0 }
+        1700000001 0 false b!"W/Wabc-rr" [] (some b!"-rr") = .ok .notModified304 ∧
+    validatorMatches (some b!"-rr") b!"W/Wabc-rr" [] [(b!"Etag", [b!"Wabc"])] = true := by
+  decide +kernel
 
 /-! ## From the decision back to the validator comparison -/
 
@@ -113,48 +124,49 @@ theorem get_304_decide {lockHeld : Bool} {m : Entry} {now : Int} {force : Nat} {
           | panic s => rw [hd2] at h; cases h
           | ok d2 => cases d2 <;> (rw [hd2] at h; cases h)
 
-/-! ## The ETag comparison outside the class of C09-a -/
+/-! ## The ETag comparison -/
 
-/-- a tag on which the cutset trim equals the prefix trim: an optional literal `W/`, then a
-    rest that is empty or starts with neither `W` nor `/`; both trims give that rest -/
-theorem not_quirk_decomp {t : Bytes} (h : cutsetQuirk t = false) :
-    ∃ p c : Bytes, t = p ++ c ∧ (p = [] ∨ p = b!"W/") ∧ clean b!"W/" c = true ∧
-      trimLeft b!"W/" t = c ∧ opaqueTag t = c := by
-  have heq : trimLeft b!"W/" t = opaqueTag t := by
-    unfold cutsetQuirk at h
-    cases hb : (trimLeft b!"W/" t != opaqueTag t) with
-    | true => rw [hb] at h; cases h
-    | false => simpa using hb
+/-- `normalizeEtag` (`strings.TrimPrefix(·, "W/")` since the repair of C09-a) IS the opaque-tag of
+    the specification -/
+theorem normalizeEtag_eq_opaqueTag (t : Bytes) : normalizeEtag t = opaqueTag t := rfl
+
+/-- a tag is an optional literal `W/` followed by its opaque-tag; without the `W/` the tag does
+    not start with `W/` -/
+theorem tag_decomp (t : Bytes) :
+    ∃ p : Bytes, t = p ++ opaqueTag t ∧ ((p = [] ∧ hasPrefix t b!"W/" = false) ∨ p = b!"W/") := by
   by_cases hp : hasPrefix t b!"W/" = true
   · obtain ⟨t', ht'⟩ := (hasPrefix_iff _ _).1 hp
     subst ht'
     have ho : opaqueTag (b!"W/" ++ t') = t' := by
       unfold opaqueTag; rw [if_pos hp]; rfl
-    have htl : trimLeft b!"W/" (b!"W/" ++ t') = trimLeft b!"W/" t' := by
-      show trimLeft [87, 47] (87 :: 47 :: t') = _
-      rw [trimLeft, if_pos (by decide), trimLeft, if_pos (by decide)]
-    rw [ho, htl] at heq
-    exact ⟨b!"W/", t', rfl, Or.inr rfl, clean_of_trimLeft_eq heq, by rw [htl, heq], ho⟩
+    exact ⟨b!"W/", by rw [ho], Or.inr rfl⟩
   · have ho : opaqueTag t = t := by unfold opaqueTag; rw [if_neg hp]
-    rw [ho] at heq
-    exact ⟨[], t, rfl, Or.inl rfl, clean_of_trimLeft_eq heq, heq, ho⟩
+    exact ⟨[], by rw [ho]; rfl, Or.inl ⟨rfl, by simpa using hp⟩⟩
 
-/-- putting the optional `W/` back in front of a rest that starts with neither `W` nor `/`
-    and taking the opaque-tag gives the rest -/
-theorem opaqueTag_append {p z : Bytes} (hp : p = [] ∨ p = b!"W/") (hz : clean b!"W/" z = true) :
-    opaqueTag (p ++ z) = z := by
-  rcases hp with hp | hp
+/-- a string that does not start with `W/` still does not after its tail `w` has been replaced
+    by nothing or by a double quote -/
+theorem hasPrefix_W_cut {x w r : Bytes} (h : hasPrefix (x ++ w) b!"W/" = false)
+    (hr : r = [] ∨ r = [34]) : hasPrefix (x ++ r) b!"W/" = false := by
+  match x, h with
+  | [], _ => rcases hr with hr | hr <;> subst hr <;> decide
+  | [a], _ => rcases hr with hr | hr <;> subst hr <;> simp [hasPrefix, List.isPrefixOf]
+  | a :: b :: x', h =>
+    simpa [hasPrefix, List.isPrefixOf] using h
+
+/-- the candidate of `Spec.C09Get.stripCandidates` — the optional `W/`, the part `x` in front of
+    the suffix, the closing quote if there was one — has the opaque-tag `x` (+ quote) -/
+theorem opaqueTag_candidate {t p x w r : Bytes} (ht : t = p ++ (x ++ w))
+    (hp : (p = [] ∧ hasPrefix t b!"W/" = false) ∨ p = b!"W/")
+    (hr : r = [] ∨ r = [34]) : opaqueTag (p ++ (x ++ r)) = x ++ r := by
+  rcases hp with ⟨hp, hpre⟩ | hp
   · subst hp
-    rw [List.nil_append]
+    subst ht
+    rw [List.nil_append] at hpre ⊢
+    have := hasPrefix_W_cut hpre hr
     unfold opaqueTag
-    have : ¬ hasPrefix z b!"W/" = true := by
-      intro hpre
-      obtain ⟨w, hw⟩ := (hasPrefix_iff _ _).1 hpre
-      subst hw
-      simp [clean] at hz
-    rw [if_neg this]
+    rw [if_neg (by rw [this]; decide)]
   · subst hp
-    have : hasPrefix (b!"W/" ++ z) b!"W/" = true := (hasPrefix_iff _ _).2 ⟨z, rfl⟩
+    have : hasPrefix (b!"W/" ++ (x ++ r)) b!"W/" = true := (hasPrefix_iff _ _).2 ⟨x ++ r, rfl⟩
     unfold opaqueTag
     rw [if_pos this]
     rfl
@@ -173,25 +185,22 @@ theorem suffixOk_some {tok : Bytes} (h : suffixOk (some tok) = true) : tok ≠ [
   rw [h.2] at this
   cases this
 
-/-- **the If-None-Match comparison is sound outside C09-a**: when neither tag is one on which
-    the cutset trim misbehaves, `etagCheck = ok true` implies the declarative weak match with
-    the suffix removed. -/
+/-- **the If-None-Match comparison is sound**: `etagCheck = ok true` implies the declarative weak
+    match with the suffix removed, for all tags (no class excluded since the repair of C09-a). -/
 theorem etagCheck_sound {suffix : Option Bytes} {inm s : Bytes}
-    (hs : suffixOk suffix = true) (hc : inClass_C09_a inm s = false)
+    (hs : suffixOk suffix = true)
     (h : etagCheck suffix inm s = .ok true) : etagMatches suffix inm s = true := by
-  unfold inClass_C09_a at hc
-  rw [Bool.or_eq_false_iff] at hc
-  obtain ⟨p, c, hinm, hp, hclean, htrim, hopq⟩ := not_quirk_decomp hc.1
-  obtain ⟨_, _, _, _, _, htrimS, hopqS⟩ := not_quirk_decomp hc.2
-  have hS : normalizeEtag s = opaqueTag s := by unfold normalizeEtag; rw [htrimS, hopqS]
-  have hn : normalizeEtag inm = c := htrim
+  obtain ⟨p, hinm, hp⟩ := tag_decomp inm
+  have hS : normalizeEtag s = opaqueTag s := normalizeEtag_eq_opaqueTag s
+  have hn : normalizeEtag inm = opaqueTag inm := normalizeEtag_eq_opaqueTag inm
+  generalize opaqueTag inm = c at hinm hn
   cases suffix with
   | none =>
     unfold etagCheck at h
     simp only [Res.ok.injEq, beq_iff_eq] at h
     unfold etagMatches stripCandidates
     simp only [List.any_cons, List.any_nil, Bool.or_false, beq_iff_eq]
-    rw [hopq, ← hS, ← h, hn]
+    rw [← hS, ← h, normalizeEtag_eq_opaqueTag]
   | some tok =>
     obtain ⟨hne, h34⟩ := suffixOk_some hs
     unfold etagCheck at h
@@ -222,8 +231,8 @@ theorem etagCheck_sound {suffix : Option Bytes} {inm s : Bytes}
           simp only [Bool.false_eq_true, ↓reduceIte] at h
           have htake : c.take idx = x := by rw [hx]; exact List.take_left' hxl
           rw [htake] at h
-          have hcx : clean b!"W/" x = true := by
-            have := clean_append_of_clean (r := []) (hx ▸ hclean) rfl
+          have hox : opaqueTag (p ++ x) = x := by
+            have := opaqueTag_candidate (r := []) (hinm.trans (by rw [hx])) hp (Or.inl rfl)
             rwa [List.append_nil] at this
           refine ⟨p ++ x, ?_, ?_⟩
           · unfold stripCandidates
@@ -231,7 +240,7 @@ theorem etagCheck_sound {suffix : Option Bytes} {inm s : Bytes}
             apply List.mem_append_left
             rw [List.mem_singleton, hinm, hx, ← List.append_assoc]
             exact (dropRight_append _ _ rfl).symm
-          · rw [opaqueTag_append hp hcx, h]
+          · rw [hox, h]
             exact beq_self_eq_true _
         · -- the client's tag ends in the suffix followed by a quote
           have hsuf' : tok ++ [34] <:+ p ++ c := by
@@ -244,9 +253,9 @@ theorem etagCheck_sound {suffix : Option Bytes} {inm s : Bytes}
           have htake : c.take idx = x := by
             rw [hx, List.append_assoc]; exact List.take_left' hxl
           rw [htake] at h
-          have hcx : clean b!"W/" (x ++ [34]) = true := by
-            rw [hx, List.append_assoc] at hclean
-            exact clean_append_of_clean hclean (by decide)
+          have hox : opaqueTag (p ++ (x ++ [34])) = x ++ [34] :=
+            opaqueTag_candidate (w := tok ++ [34]) (hinm.trans (by rw [hx, List.append_assoc])) hp
+              (Or.inr rfl)
           refine ⟨p ++ (x ++ [34]), ?_, ?_⟩
           · unfold stripCandidates
             simp only [hsuf, ↓reduceIte]
@@ -255,14 +264,14 @@ theorem etagCheck_sound {suffix : Option Bytes} {inm s : Bytes}
             have : p ++ (x ++ tok ++ [34]) = (p ++ x) ++ (tok ++ [34]) := by
               simp only [List.append_assoc]
             rw [this, dropRight_append _ _ (by simp), List.append_assoc]
-          · rw [opaqueTag_append hp hcx, h]
+          · rw [hox, h]
             exact beq_self_eq_true _
     · rw [if_neg hsuf] at h
       cases h
 
-/-- the client-validator comparison is sound outside C09-a -/
+/-- the client-validator comparison is sound -/
 theorem clientCheck_sound {suffix : Option Bytes} {inm ims : Bytes} {stored : Header}
-    (hs : suffixOk suffix = true) (hc : inClass_C09_a inm (stored.get b!"etag") = false)
+    (hs : suffixOk suffix = true)
     (h : clientCheck suffix inm ims stored = .ok true) :
     validatorMatches suffix inm ims stored = true := by
   unfold clientCheck at h
@@ -270,7 +279,7 @@ theorem clientCheck_sound {suffix : Option Bytes} {inm ims : Bytes} {stored : He
   by_cases h1 : inm.length > 0
   · rw [if_pos h1] at h
     have hne : inm ≠ [] := List.length_pos_iff.1 h1
-    rw [etagCheck_sound hs hc h]
+    rw [etagCheck_sound hs h]
     simp [hne]
   · rw [if_neg h1] at h
     by_cases h2 : ims.length > 0
@@ -282,7 +291,7 @@ theorem clientCheck_sound {suffix : Option Bytes} {inm ims : Bytes} {stored : He
     · rw [if_neg h2] at h
       cases h
 
-/-! ## The clause, outside the class of finding C09-a -/
+/-! ## The clause at full strength -/
 
 /-- the entry of the non-vacuity examples: a quoted ETag and a Last-Modified date, stored one
     second before the request, no freshness information (never due for revalidation) -/
@@ -290,88 +299,89 @@ def exEntry : Entry :=
   { header := [(b!"Etag", [b!"\"abc\""]), (b!"Last-Modified", [b!"Mon, 02 Jan 2006 15:04:05 GMT"])],
     created := 1700000000, revalidated := 0 }
 
-/-- an entry with an UNQUOTED ETag that is outside the class all the same -/
+/-- an entry with an UNQUOTED ETag -/
 def exEntryBare : Entry :=
   { header := [(b!"Etag", [b!"abc"])], created := 1700000000, revalidated := 0 }
+
+/-- an entry with an unquoted ETag whose opaque part starts with `W` (the former class C09-a) -/
+def exEntryBareW : Entry :=
+  { header := [(b!"Etag", [b!"Wabc"])], created := 1700000000, revalidated := 0 }
 
 /-- an entry that may be served stale while it is revalidated -/
 def exEntrySwr : Entry :=
   { header := [(b!"Etag", [b!"\"abc\""]), (b!"Cache-Control", [b!"stale-while-revalidate=60"])],
     created := 1700000000, revalidated := 0 }
 
-/-- **C09, client-304 clause — PARTIAL** because of finding C09-a (`normalizeEtag` is a cutset
-    trim, `fails_witness_a`).  The extra hypothesis is exactly the complement of the declared
-    class `inClass_C09_a`: on neither the client's tag nor the stored tag does
-    `strings.TrimLeft(·, "W/")` differ from removing one `W/` prefix.  Under it, a 304 decision
+/-- **C09, client-304 clause — at full strength** (no class excluded since the repair of C09-a,
+    whose extra hypothesis `inClass_C09_a … = false` this theorem used to carry as
+    `client_304_only_if_match_partial`): for every stored entry, clock, rule setting, client
+    validators and configured suffix (a non-empty token without a double quote), a 304 decision
     of `cache.Get` implies that the client sent a matching validator. -/
-theorem client_304_only_if_match_partial :
-    ∀ (m : Entry) (now : Int) (force : Nat) (skip : Bool) (inm ims : Bytes) (suffix : Option Bytes),
-      suffixOk suffix = true →
-      inClass_C09_a inm (m.header.get b!"etag") = false →
-      Freshness.decide m now force skip inm ims suffix = .ok .notModified304 →
-      validatorMatches suffix inm ims m.header = true := by
-  intro m now force skip inm ims suffix hs hc h
-  exact clientCheck_sound hs hc (decide_304_clientCheck h)
+theorem client_304_only_if_match : Statement := by
+  intro m now force skip inm ims suffix hs h
+  exact clientCheck_sound hs (decide_304_clientCheck h)
 
-/-! non-vacuity of `client_304_only_if_match_partial`: concrete instances satisfying all three
-    hypotheses (and hence the conclusion) — suffix inside the quotes of a weak tag, suffix after
-    the closing quote, no suffix configured, an unquoted tag outside the class, and
+/-! non-vacuity of `client_304_only_if_match`: concrete instances satisfying both hypotheses
+    (and hence the conclusion) — suffix inside the quotes of a weak tag, suffix after the closing
+    quote, no suffix configured, unquoted tags (also one that starts with `W`), and
     If-Modified-Since equal to the stored Last-Modified -/
 example :
     suffixOk (some b!"-rr") = true ∧
-    inClass_C09_a b!"W/\"abc-rr\"" (exEntry.header.get b!"etag") = false ∧
     Freshness.decide exEntry 1700000001 0 false b!"W/\"abc-rr\"" [] (some b!"-rr")
       = .ok .notModified304 ∧
     validatorMatches (some b!"-rr") b!"W/\"abc-rr\"" [] exEntry.header = true := by
   decide +kernel
 example :
-    inClass_C09_a b!"\"abc\"-rr" (exEntry.header.get b!"etag") = false ∧
     Freshness.decide exEntry 1700000001 0 false b!"\"abc\"-rr" [] (some b!"-rr")
       = .ok .notModified304 := by
   decide +kernel
 example :
     suffixOk none = true ∧
-    inClass_C09_a b!"W/\"abc\"" (exEntry.header.get b!"etag") = false ∧
     Freshness.decide exEntry 1700000001 0 false b!"W/\"abc\"" [] none = .ok .notModified304 := by
   decide +kernel
 example :
-    inClass_C09_a b!"abc-rr" (exEntryBare.header.get b!"etag") = false ∧
     Freshness.decide exEntryBare 1700000001 0 false b!"abc-rr" [] (some b!"-rr")
       = .ok .notModified304 := by
   decide +kernel
 example :
-    inClass_C09_a [] (exEntry.header.get b!"etag") = false ∧
+    Freshness.decide exEntryBareW 1700000001 0 false b!"Wabc-rr" [] (some b!"-rr")
+      = .ok .notModified304 ∧
+    validatorMatches (some b!"-rr") b!"Wabc-rr" [] exEntryBareW.header = true := by
+  decide +kernel
+example :
     Freshness.decide exEntry 1700000001 0 false [] b!"Mon, 02 Jan 2006 15:04:05 GMT" (some b!"-rr")
       = .ok .notModified304 ∧
     validatorMatches (some b!"-rr") [] b!"Mon, 02 Jan 2006 15:04:05 GMT" exEntry.header = true := by
   decide +kernel
-/-! … and the comparison does discriminate: a tag without the required suffix, a different tag
-    and a different date are not answered 304 -/
+/-! … and the comparison does discriminate: a tag without the required suffix, a different tag,
+    a different date, and unquoted tags that differ by a leading `W` or `/` (the former finding
+    C09-a) are not answered 304 -/
 example :
     Freshness.decide exEntry 1700000001 0 false b!"W/\"abc\"" [] (some b!"-rr") = .ok (.fresh 1) ∧
     Freshness.decide exEntry 1700000001 0 false b!"\"abd-rr\"" [] (some b!"-rr") = .ok (.fresh 1) ∧
     Freshness.decide exEntry 1700000001 0 false [] b!"Mon, 02 Jan 2006 15:04:06 GMT" none
-      = .ok (.fresh 1) := by
+      = .ok (.fresh 1) ∧
+    Freshness.decide exEntryBare 1700000001 0 false b!"Wabc" [] none = .ok (.fresh 1) ∧
+    Freshness.decide exEntryBare 1700000001 0 false b!"/abc" [] none = .ok (.fresh 1) ∧
+    Freshness.decide exEntryBareW 1700000001 0 false b!"abc" [] none = .ok (.fresh 1) := by
   decide +kernel
 
 /-- the same through `cache.Get` with its lock-dependent tail: `found304` only arises from the
-    top-level decision (PARTIAL, finding C09-a) -/
-theorem get_304_only_if_match_partial :
+    top-level decision (full strength; was `get_304_only_if_match_partial`) -/
+theorem get_304_only_if_match :
     ∀ (lockHeld : Bool) (m : Entry) (now : Int) (force : Nat) (skip : Bool) (inm ims : Bytes)
       (suffix : Option Bytes) (a : Int),
       suffixOk suffix = true →
-      inClass_C09_a inm (m.header.get b!"etag") = false →
       Freshness.get lockHeld m now force skip inm ims suffix = .ok (.found304 a) →
       validatorMatches suffix inm ims m.header = true := by
-  intro lockHeld m now force skip inm ims suffix a hs hc h
-  exact client_304_only_if_match_partial m now force skip inm ims suffix hs hc (get_304_decide h)
+  intro lockHeld m now force skip inm ims suffix a hs h
+  exact client_304_only_if_match m now force skip inm ims suffix hs (get_304_decide h)
 
-/-! non-vacuity of `get_304_only_if_match_partial`: `found304` is reached; and the re-entry of
+/-! non-vacuity of `get_304_only_if_match`: `found304` is reached; and the re-entry of
     caching.go:299 (forced revalidation due, key locked, stale-while-revalidate allowed) turns
     the 304 of the inner `Get` into `foundNoReader`, never into `found304` -/
 example :
     suffixOk (some b!"-rr") = true ∧
-    inClass_C09_a b!"W/\"abc-rr\"" (exEntry.header.get b!"etag") = false ∧
     Freshness.get false exEntry 1700000001 0 false b!"W/\"abc-rr\"" [] (some b!"-rr")
       = .ok (.found304 1) := by
   decide +kernel
@@ -382,94 +392,19 @@ example :
       = .ok (.foundNoReader 5) := by
   decide +kernel
 
-/-! ### well-formed tags are outside the class -/
-
-/-- a syntactically well-formed entity-tag (RFC 9110 §8.8.3: `[W/] DQUOTE … DQUOTE`) as far as
-    its beginning goes, or no tag at all -/
-def wellFormedTag (t : Bytes) : Bool :=
-  t.isEmpty || hasPrefix t b!"\"" || hasPrefix t b!"W/\""
-
-/-- a tag that is empty, starts with `"` or starts with `W/"` is not affected by the cutset trim -/
-theorem wellFormed_not_in_class (t : Bytes)
-    (h : t = [] ∨ (∃ r, t = 34 :: r) ∨ (∃ r, t = 87 :: 47 :: 34 :: r)) :
-    cutsetQuirk t = false := by
-  rcases h with h | ⟨r, h⟩ | ⟨r, h⟩
-  · subst h; decide
-  · subst h
-    have h1 : trimLeft b!"W/" (34 :: r) = 34 :: r := by
-      rw [trimLeft, if_neg (by decide)]
-    have h2 : opaqueTag (34 :: r) = 34 :: r := by
-      unfold opaqueTag
-      rw [if_neg]
-      intro hp
-      obtain ⟨w, hw⟩ := (hasPrefix_iff _ _).1 hp
-      simp at hw
-    unfold cutsetQuirk
-    rw [h1, h2]
-    simp
-  · subst h
-    have h1 : trimLeft b!"W/" (87 :: 47 :: 34 :: r) = 34 :: r := by
-      rw [trimLeft, if_pos (by decide), trimLeft, if_pos (by decide), trimLeft, if_neg (by decide)]
-    have h2 : opaqueTag (87 :: 47 :: 34 :: r) = 34 :: r := by
-      have hp : hasPrefix (87 :: 47 :: 34 :: r) b!"W/" = true :=
-        (hasPrefix_iff _ _).2 ⟨34 :: r, rfl⟩
-      unfold opaqueTag
-      rw [if_pos hp]
-      rfl
-    unfold cutsetQuirk
-    rw [h1, h2]
-    simp
-
-/-! non-vacuity of `wellFormed_not_in_class`, and the class is not empty -/
-example : cutsetQuirk [] = false ∧ cutsetQuirk b!"\"Wabc\"" = false ∧
-    cutsetQuirk b!"W/\"/abc\"" = false ∧ cutsetQuirk b!"Wabc" = true ∧
-    cutsetQuirk b!"W/W/\"abc\"" = true := by decide
-
-theorem wellFormedTag_iff (t : Bytes) :
-    wellFormedTag t = true ↔
-      (t = [] ∨ (∃ r, t = 34 :: r) ∨ (∃ r, t = 87 :: 47 :: 34 :: r)) := by
-  unfold wellFormedTag
-  rw [Bool.or_eq_true, Bool.or_eq_true, hasPrefix_iff, hasPrefix_iff, List.isEmpty_iff, or_assoc]
-  constructor
-  · rintro (h | ⟨r, h⟩ | ⟨r, h⟩)
-    · exact Or.inl h
-    · exact Or.inr (Or.inl ⟨r, h.symm⟩)
-    · exact Or.inr (Or.inr ⟨r, h.symm⟩)
-  · rintro (h | ⟨r, h⟩ | ⟨r, h⟩)
-    · exact Or.inl h
-    · exact Or.inr (Or.inl ⟨r, h.symm⟩)
-    · exact Or.inr (Or.inr ⟨r, h.symm⟩)
-
-theorem wellFormedTag_not_quirk {t : Bytes} (h : wellFormedTag t = true) : cutsetQuirk t = false :=
-  wellFormed_not_in_class t ((wellFormedTag_iff t).1 h)
-
-/-- **C09, client-304 clause for well-formed tags**: when the client's If-None-Match value and
-    the stored ETag are each absent or begin like an entity-tag (`"` or `W/"`), a 304 decision
-    implies a matching validator.  (Corollary of the partial theorem; the remaining gap to the
-    clause as stated is finding C09-a.) -/
-theorem client_304_only_if_match_wellformed :
+/-- the oracle `Spec.C09Get.holds` accepts the model's decision on every input of the domain -/
+theorem holds_model :
     ∀ (m : Entry) (now : Int) (force : Nat) (skip : Bool) (inm ims : Bytes) (suffix : Option Bytes),
       suffixOk suffix = true →
-      wellFormedTag inm = true →
-      wellFormedTag (m.header.get b!"etag") = true →
-      Freshness.decide m now force skip inm ims suffix = .ok .notModified304 →
-      validatorMatches suffix inm ims m.header = true := by
-  intro m now force skip inm ims suffix hs h1 h2 h
-  refine client_304_only_if_match_partial m now force skip inm ims suffix hs ?_ h
-  unfold inClass_C09_a
-  rw [wellFormedTag_not_quirk h1, wellFormedTag_not_quirk h2]
-  rfl
-
-/-! non-vacuity of `client_304_only_if_match_wellformed` -/
-example :
-    suffixOk (some b!"-rr") = true ∧
-    wellFormedTag b!"W/\"abc-rr\"" = true ∧
-    wellFormedTag (exEntry.header.get b!"etag") = true ∧
-    Freshness.decide exEntry 1700000001 0 false b!"W/\"abc-rr\"" [] (some b!"-rr")
-      = .ok .notModified304 := by
-  decide +kernel
-example : wellFormedTag [] = true ∧ wellFormedTag b!"\"abc\"" = true ∧
-    wellFormedTag b!"Wabc" = false ∧ wellFormedTag b!"abc" = false := by decide
+      holds suffix inm ims m.header
+        (Freshness.decide m now force skip inm ims suffix == .ok .notModified304) = true := by
+  intro m now force skip inm ims suffix hs
+  unfold holds
+  cases hd : (Freshness.decide m now force skip inm ims suffix == .ok .notModified304) with
+  | false => rfl
+  | true =>
+    have := client_304_only_if_match m now force skip inm ims suffix hs (by simpa using hd)
+    simp [this]
 
 /-! ## No validator, no 304 — full strength -/
 
